@@ -78,8 +78,8 @@ def main():
             for f in files:
                 p = os.path.join(ddir, os.path.basename(f))
                 if os.path.isdir(p):
-                    shutil.rmtree(p)
-                else:
+                    shutil.rmtree(p, ignore_errors=True)
+                elif os.path.exists(p):
                     os.remove(p)
         else:
             rc, o = sh("git apply --whitespace=nowarn " + patch, wt)
@@ -104,13 +104,13 @@ def main():
     finally:
         subprocess.run(["git", "-C", "/repo", "worktree", "remove", "--force", wt])
         shutil.rmtree(out, ignore_errors=True)
-        for f in glob.glob(os.path.join(ROOT, ".bin", "*.test")):
-            # binaries built against scratch worktrees carry a hash tag: c01.1a2b3c4d.test
-            if len(os.path.basename(f).split(".")) >= 3 and os.path.basename(f).split(".")[1] not in ("race", "test"):
-                try:
-                    os.remove(f)
-                except OSError:
-                    pass
+        import hashlib
+        mytag = hashlib.sha1(wt.encode()).hexdigest()[:8]  # the driver tags binaries built against VERIF_REPO with this hash
+        for f in glob.glob(os.path.join(ROOT, ".bin", "*.%s*.test" % mytag)) + glob.glob(os.path.join(ROOT, ".work", "alt-%s.*" % mytag)):
+            try:
+                os.remove(f)
+            except OSError:
+                pass
         json.dump(res, open(os.path.join(sd, "result.json"), "w"), indent=1)
         hp = os.path.join(sd, "history.json")
         hist = json.load(open(hp)) if os.path.exists(hp) else []
